@@ -47,6 +47,7 @@ type Obligation struct {
 	Secs   float64
 	Model  string
 	SMTLen int
+	id     int
 	Candidate bool
 	Ground string
 }
@@ -74,6 +75,10 @@ type FV struct {
 	implUsed map[string]types.Type // interface name -> type
 	sliceElems map[string]string
 	guardsOK   int
+	entryScript *Node
+	vacuous    bool
+	leaves     []*Node
+	usesEvalPhase bool
 	hsUses     map[string][]heapUse
 	hsBusy     map[string]bool
 	hsUnfolded map[*State]map[string]bool
